@@ -109,7 +109,7 @@ _EXC_TREE = {
     "FileNotFoundError": "OSError", "PermissionError": "OSError", "IOError": "Exception",
     "RuntimeError": "Exception", "NotImplementedError": "RuntimeError",
     "RecursionError": "RuntimeError", "StopIteration": "Exception", "TypeError": "Exception",
-    "ValueError": "Exception", "UnicodeDecodeError": "ValueError", "Warning": "Exception",
+    "ValueError": "Exception", "UnicodeDecodeError": "ValueError", "OverflowError": "ArithmeticError", "Warning": "Exception",
     "UserWarning": "Warning",
 }
 EXC = {}
